@@ -120,12 +120,20 @@ def spdc_term(s):
 def otable_term(orc):
     def ans(x):
         return "None" if x is None else f"(Some {qh(x)})"
+
+    def args(name):
+        a = (orc.get("args") or {}).get(name)
+        if a is None or any(x is None for x in a):
+            return "None"
+        return "(Some [" + "; ".join(qh(x) for x in a) + "])"
     si = "; ".join(f"({qh(e['wavelength'])}, {qh(e['ext'])}, {ans(e['r'])})" for e in orc.get("snell_inv", []))
     wp = "; ".join(f"({qh(e['wavelength'])}, {e['pol']}, {ans(e['r'])})" for e in orc.get("waist_pos", []))
     dk = orc.get("dkz0")
     return ("{| t_snell_inv := [%s]; t_snell_ext := %s; t_nm_theta := %s; t_dkz0 := %s; t_nm_period := %s; t_idler_theta := %s; "
-            "t_waist_pos := [%s] |}" % (si, ans(orc.get("snell_ext")), ans(orc.get("nm_theta")), qh(dk) if dk is not None else "1",
-                                        ans(orc.get("nm_period")), ans(orc.get("idler_theta")), wp))
+            "t_waist_pos := [%s]; t_snell_ext_args := %s; t_nm_theta_args := %s; t_dkz0_args := %s; t_idler_theta_args := %s |}"
+            % (si, ans(orc.get("snell_ext")), ans(orc.get("nm_theta")), qh(dk) if dk is not None else "1",
+               ans(orc.get("nm_period")), ans(orc.get("idler_theta")), wp,
+               args("snell_ext"), args("nm_theta"), args("dkz0"), args("idler_theta")))
 
 
 def units_term(u):
